@@ -40,6 +40,9 @@ def _case(draw):
         if spec["winds"][0][2] < R:
             spec["winds"].append([draw(st.floats(5.0, 60.0)), draw(st.floats(-0.6, 0.6)), 1e8])
     kind = draw(st.sampled_from(["div", "div", "nondiv", "nondiv", "eq", "default", "small"]))
+    metric_card = slow_tail and draw(st.booleans())
+    if metric_card:
+        kind = "div"  # a range card in metric units: the summed steps may end an ulp above the range
     if kind == "div":
         n = draw(st.integers(1, 40))
         s = R / n
@@ -60,6 +63,14 @@ def _case(draw):
     if kind == "default" and R / 10.0 < h:
         R = 10.0 * h * draw(st.floats(1.0, 50.0))
     ru = draw(st.one_of(st.none(), st.sampled_from(DIST), st.just("Foot")))
+    if metric_card:
+        ru = draw(st.sampled_from(["Meter", "Meter", "Centimeter", "Kilometer", "Millimeter"]))
+        R = round(R * 0.3048 / 2, 1) * 2 / 0.3048 if R > 40 else R  # typical round metric ranges (even decimetres)
+        n = draw(st.sampled_from([10, 10, 5, 20, 8]))
+        s = R / n
+        if s < h:
+            n = max(1, int(R / (2 * h)))
+            s = R / n
     su = draw(st.one_of(st.none(), st.sampled_from(DIST), st.just("Foot")))
     rng = [ref.from_si(R * 0.3048, ru or "Yard"), ru]
     if kind == "div":
